@@ -119,6 +119,15 @@ def boundary_cases():
         out.append(("bytes", bytes(range(256)) * (n // 256) + b"\x00" * (n % 256), {"long_value", "boundary_bytes"}))
     out.append(({"type": "record", "name": "Tail", "fields": [{"name": "n", "type": "long"}, {"name": "note", "type": "string"}]},
                 {"n": 5, "note": "\u00e9" * 40000}, {"long_value"}))
+    # string defaults of unions: the first branch a JSON string fits decides what the string means
+    F2 = {"type": "fixed", "name": "F2", "size": 2}
+    EN = {"type": "enum", "name": "EN", "symbols": ["ab", "cd"]}
+    for k, (u, dflt) in enumerate([(["bytes", "string"], "hi\u00ff"), (["null", "bytes", "string"], "\u0000\u00e9z"), ([{"type": "bytes"}, "string"], "x"),
+                                   (["string", "bytes"], "s\u00e9"), ([F2, "string"], "ab"), ([F2, "string"], "abc"), ([EN, "bytes"], "ab"),
+                                   ([EN, "bytes"], "zz"), (["null", EN, F2, "string"], "cd"), (["null", F2, EN], "ab"), (["int", "bytes"], ""),
+                                   ([{"type": "array", "items": "bytes"}, "null"], ["a", "\u00ff"]), ([{"type": "map", "values": F2}, "null"], {"k": "ab"})]):
+        js = {"type": "record", "name": "UD%d" % k, "fields": [{"name": "a", "type": "int"}, {"name": "u", "type": u, "default": dflt}, {"name": "z", "type": "int", "default": 7}]}
+        out.append((js, {"a": k}, {"union_string_default", "omitted_default"}))
     # fixed of size 0 and enum extremes
     out.append(({"type": "fixed", "name": "Z", "size": 0}, b"", {"fixed_zero"}))
     out.append(({"type": "enum", "name": "E", "symbols": ["A", "B", "C"]}, "C", {"enum_last"}))
